@@ -3,6 +3,8 @@ watchdog, canonical entry lists, token alphabets and text generators."""
 import itertools
 import signal
 
+from harness.common import TAGS
+
 FORMATS = ["properties", "dtd", "ini", "inc", "po"]
 FILE = {"properties": "f.properties", "dtd": "f.dtd", "ini": "f.ini", "inc": "f.inc",
         "po": "f.po", "ftl": "f.ftl"}
@@ -13,6 +15,13 @@ HANG = [1, 9]
 
 class Watchdog(Exception):
     pass
+
+
+class Crash:
+    """an exception escaped the code under test"""
+    def __init__(self, exc):
+        self.name = type(exc).__name__
+        self.text = repr(exc)[:200]
 
 
 def _alarm(signum, frame):
@@ -84,6 +93,8 @@ def raw_walk(fmt, text, localizable=False):
         return with_watchdog(go)
     except Watchdog:
         return None
+    except Exception as e:  # noqa: an exception escaping the walk is an outcome, not a harness crash
+        return Crash(e)
 
 
 def impl_walk(fmt, text):
@@ -91,9 +102,13 @@ def impl_walk(fmt, text):
     es = raw_walk(fmt, text)
     if es is None:
         return HANG, None
+    if isinstance(es, Crash):
+        return [1, TAGS.get(es.name, 99)], es
     loc = raw_walk(fmt, text, localizable=True)
     if loc is None:
         return HANG, None
+    if isinstance(loc, Crash):
+        return [1, TAGS.get(loc.name, 99)], loc
     return [0, [[canon_entry(e) for e in es], [canon_entry(e) for e in loc]]], es
 
 
@@ -143,6 +158,12 @@ def oracle_c01(fmt, text, es, loc):
     """the statement of C01 on the implementation's own output; returns None or (signature, detail)"""
     if es is None:
         return ("hang", "walk did not terminate within the entry cap / watchdog")
+    if isinstance(es, Crash):
+        return ("exception", es.text)
+    if isinstance(loc, Crash):
+        return ("exception", loc.text)
+    if loc is None:
+        return ("hang", "localizable view did not terminate")
     body = text[1:] if fmt == "dtd" and text.startswith("\ufeff") else text
     joined = "".join(e.all for e in es)
     if joined != body:
@@ -172,3 +193,75 @@ def oracle_c01(fmt, text, es, loc):
     if want != got:
         return ("localizable-view", {"walk_filtered": want, "iter": got})
     return None
+
+
+# ------------------------------------------------------- structured files ---
+def _val(rng):
+    return rng.choice(["v", "some value", "a=b", "x:y", "%S", "\\u0041", "two\\\n   lines", "", "é"])
+
+
+def structured(fmt, rng):
+    """a mostly well-formed file: entities with attached / abutting / detached comments,
+    blank lines, a possible license header, a possible garbage line"""
+    out = []
+    n = rng.randint(0, 5)
+    if rng.random() < 0.15:
+        out.append({"properties": "# License x\n", "dtd": "<!-- License x -->\n", "ini": "; License x\n",
+                    "inc": "# License x\n", "po": "# License x\n"}[fmt] + rng.choice(["", "\n"]))
+    if fmt == "ini":
+        out.append("[Strings]\n")
+    if fmt == "inc" and rng.random() < 0.5:
+        out.append("#filter emptyLines\n")
+    for i in range(n):
+        k = "k%d" % i if rng.random() < 0.9 else "k0"
+        c = rng.random()
+        sep = rng.choice(["", "", "\n", "\n\n"])  # between comment and entity: abutting, newline, blank line
+        if fmt == "properties":
+            if c < 0.4:
+                out.append(rng.choice("#!") + " c%d" % i + ("\n" if sep == "" else sep))
+            out.append(k + rng.choice(["=", " = ", ":", " : "]) + _val(rng) + "\n")
+        elif fmt == "dtd":
+            if c < 0.4:
+                out.append("<!-- c%d -->" % i + sep)
+            q = rng.choice("\"'")
+            out.append("<!ENTITY " + k + " " + q + rng.choice(["v", "a &amp; b", "x\ny", ""]) + q + ">"
+                       + rng.choice(["\n", "", "\n\n"]))
+        elif fmt == "ini":
+            if c < 0.4:
+                out.append(rng.choice(";#") + " c%d" % i + ("\n" if sep == "" else sep))
+            out.append(k + "=" + rng.choice(["v", "a b", "", "x=y"]) + "\n")
+        elif fmt == "inc":
+            if c < 0.4:
+                out.append("# c%d" % i + ("\n" if sep == "" else sep))
+            out.append("#define " + k + rng.choice([" v", " a b", "", "\tz"]) + "\n")
+        elif fmt == "po":
+            if c < 0.4:
+                out.append("#c%d\n" % i + sep.replace("\n\n", "\n"))
+            if rng.random() < 0.3:
+                out.append('msgctxt "ctx%d"\n' % i)
+            out.append('msgid "id%d"' % i + rng.choice(["\n", '\n"more\\n"\n']))
+            out.append('msgstr ' + rng.choice(['"s"', '""', '"a\\"b"', '"q\\\\n"']) + "\n")
+        if rng.random() < 0.3:
+            out.append("\n")
+        if rng.random() < 0.12:
+            out.append("garbage line\n")
+    text = "".join(out)
+    if text.endswith("\n") and rng.random() < 0.2:
+        text = text[:-1]
+    return text
+
+
+def mutate(text, rng, toks):
+    if not text:
+        return rng.choice(toks)
+    j = rng.randrange(len(text) + 1)
+    r = rng.random()
+    if r < 0.3:
+        return text[:j] + text[j + 1:]
+    if r < 0.6:
+        return text[:j] + rng.choice(toks) + text[j:]
+    if r < 0.8:
+        k = rng.randrange(len(text) + 1)
+        a, b = min(j, k), max(j, k)
+        return text[:a] + text[b:]
+    return text[:j] + text[j:j + 3] + text[j:]
